@@ -308,6 +308,124 @@ def invalid_argument_probes(ctx, scene):
 
 
 # ---------------------------------------------------------------------------
+# degenerate fits in mid-run (finding F26, repaired in /repo 4565404)
+# ---------------------------------------------------------------------------
+def degenerate_fit_probes(ctx, count):
+    """One image of the list has matched sources that cannot be fitted: exactly collinear ones
+    (general fit) or too few with a positive weight (any geometry).  align_wcs must return, every
+    corrector must end with a valid status, the degenerate image must be FAILED and unmoved, the other
+    images SUCCESS and corrected exactly once.  Before the repair SingularMatrixError /
+    NotEnoughPointsError left align_wcs in mid-run."""
+    from astropy.table import Table
+    from astropy import wcs as fitswcs
+    from tweakwcs import FITSWCSCorrector, align_wcs, XYXYMatch
+    rng = ctx.rng
+
+    def mkw(rot):
+        w = fitswcs.WCS(naxis=2)
+        w.wcs.crpix = [512, 512]
+        w.wcs.crval = [33.0, -41.0]
+        c, s_ = np.cos(np.deg2rad(rot)), np.sin(np.deg2rad(rot))
+        w.wcs.cd = np.array([[-c, s_], [s_, c]]) * 1.5e-5
+        w.wcs.ctype = ['RA---TAN', 'DEC--TAN']
+        w.pixel_shape = (1024, 1024)
+        w.wcs.set()
+        return w
+    for it in range(count):
+        seed = rng.getrandbits(32)
+        nprng = np.random.default_rng(seed)
+        rot = float(nprng.uniform(0, 360))
+        kind = ['collinear', 'zero-weight', 'zero-weight-ref'][it % 3] if it < 3 else \
+            rng.choice(['collinear', 'zero-weight', 'zero-weight-ref'])
+        fitgeom = 'general' if kind == 'collinear' else rng.choice(['shift', 'rshift', 'rscale', 'general'])
+        fmin = FITMIN[fitgeom]
+        nimg = rng.choice([2, 3, 4])
+        pos = it % nimg if it < 4 else rng.randrange(nimg)
+        # lattice of distinct sources, 40 px apart with jitter: unambiguous for the matcher
+        gx, gy = np.meshgrid(np.arange(120, 900, 40.0), np.arange(120, 900, 40.0))
+        px = (gx + nprng.uniform(-8, 8, gx.shape)).ravel()
+        py = (gy + nprng.uniform(-8, 8, gy.shape)).ravel()
+        order = nprng.permutation(len(px))
+        cx = cy = None
+        if kind == 'collinear':
+            n = rng.choice([3, 4, 6])
+            t = np.sort(nprng.choice(np.arange(-5, 6), size=n, replace=False)) * 37.0
+            # exactly collinear in pixel coordinates (integer steps along a lattice direction; the WCS
+            # errors below are dyadic so that the sums are exact): the hull of the catalog has fewer than
+            # 4 vertices and the footprint is the whole image.  Lines that are collinear only up to
+            # rounding give a polygon that spherical_geometry calls degenerate (outside this probe).
+            dx, dy = rng.choice([(1.0, 0.0), (0.0, 1.0), (1.0, 1.0), (1.0, -1.0), (2.0, 1.0)])
+            cx = 512.0 + t * dx
+            cy = 480.0 + t * dy
+            # lattice sources close to the line would confuse the matcher: not used
+            far = np.array([np.min(np.hypot(cx - a_, cy - b_)) > 25.0 for a_, b_ in zip(px, py)])
+            order = np.array([i for i in order if far[i]])
+        w0 = mkw(rot)
+        ims, roles, used = [], [], 0
+        weighted = kind != 'collinear' or rng.random() < 0.5
+        ref_rows = []
+        for k in range(nimg):
+            err = np.round(nprng.uniform(-0.8, 0.8, 2) * 64) / 64
+            if k == pos and kind == 'collinear':
+                x, y, n = cx, cy, len(cx)
+                wgt = np.ones(n)
+            else:
+                n = rng.choice([fmin + 2, fmin + 5, 9])
+                sel = order[used:used + n]
+                used += n
+                x, y = px[sel], py[sel]
+                wgt = nprng.uniform(0.5, 2.0, n)
+                if k == pos:
+                    npos = rng.randrange(0, fmin)       # fewer positive weights than the geometry needs
+                    wgt[npos:] = 0.0
+            ra, dec = w0.all_pix2world(x, y, 0)
+            ref_rows.append((ra, dec, np.ones(n) if not (k == pos and kind == 'zero-weight-ref') else wgt))
+            c = FITSWCSCorrector(mkw(rot))
+            t_ = Table({'x': x + err[0], 'y': y + err[1]})
+            if weighted:
+                t_['weight'] = np.ones(n) if (k == pos and kind == 'zero-weight-ref') else wgt
+            c.meta['catalog'] = t_
+            c.meta['name'] = 'im%d' % k
+            ims.append(c)
+            roles.append('degenerate' if k == pos else 'good')
+        refcat = Table({'RA': np.concatenate([r[0] for r in ref_rows]), 'DEC': np.concatenate([r[1] for r in ref_rows])})
+        if weighted:
+            refcat['weight'] = np.concatenate([r[2] for r in ref_rows])
+        case = {'op': 'degenerate-fit', 'seed': seed, 'kind': kind, 'fitgeom': fitgeom, 'nimg': nimg, 'pos': pos}
+        ctx.case(case, nontrivial=True, branch='degenerate:%s:%s:pos%d/%d' % (kind, fitgeom, pos, nimg))
+        before = [alignsim.sky_grid(c) for c in ims]
+        with alignsim.observe(ims) as obs:
+            try:
+                align_wcs(ims, refcat, fitgeom=fitgeom, expand_refcat=rng.random() < 0.3,
+                          nclip=rng.choice([None, 0, 3]), sigma=3.0,
+                          match=XYXYMatch(searchrad=5, separation=0.5, tolerance=2.0, use2dhist=False))
+                raised = None
+            except Exception as e:   # noqa
+                raised = e
+        st = [c.meta.get('fit_info', {}).get('status') if isinstance(c.meta.get('fit_info'), dict) else None
+              for c in ims]
+        ncorr = [obs.corrections[id(c)] for c in ims]
+        moved = [not np.array_equal(a, alignsim.sky_grid(c)) for a, c in zip(before, ims)]
+        if raised is not None:
+            ctx.oracle_fail(case, {'what': 'align_wcs was left by an exception in mid-run because the matched '
+                                   'sources of one image are degenerate; earlier images are already corrected',
+                                   'exception': '%s: %s' % (type(raised).__name__, str(raised)[:90]),
+                                   'status': st, 'ncorr': ncorr})
+            continue
+        for k in range(nimg):
+            ok_status = isinstance(st[k], str) and (st[k] in ('REFERENCE', 'SUCCESS') or st[k].startswith('FAILED: '))
+            if not ok_status:
+                ctx.oracle_fail(case, {'what': 'image %d has no valid status' % k, 'status': st})
+            elif roles[k] == 'degenerate':
+                if st[k] == 'SUCCESS' or ncorr[k] or moved[k]:
+                    ctx.oracle_fail(case, {'what': 'an image whose matched sources cannot be fitted was reported '
+                                           'SUCCESS or had its WCS modified', 'status': st, 'ncorr': ncorr})
+            elif st[k] != 'SUCCESS' or ncorr[k] != 1:
+                ctx.oracle_fail(case, {'what': 'a fittable image next to a degenerate one was not aligned exactly once',
+                                       'image': k, 'status': st, 'ncorr': ncorr})
+
+
+# ---------------------------------------------------------------------------
 def do_scenario(ctx, scene, scene_seed, spec, lines, pending, family):
     spec = decanon(canon(spec))
     case = {'op': 'align', 'scene_seed': scene_seed, 'family': family, 'spec': canon(spec)}
@@ -360,6 +478,7 @@ def run(ctx):
     if not ctx.search_only:
         regression_probes(ctx, lines, pending)
         invalid_argument_probes(ctx, scene)
+        degenerate_fit_probes(ctx, 6 if ctx.tier == 'quick' else 60)
     # hand-built corpus (the scenarios of the design-phase experiment e8, finding F8)
     corpus = [
         (['good', 'empty'], [None, None]), (['empty', 'good'], [None, None]),
